@@ -47,7 +47,10 @@ CONSTANTS
   NamedAsmPkgs, \* obfuscated assembly packages that declare struct types: their compile stores a go_asm.h name map
   InitGo,      \* <<pkg, cfg>> pairs already in GOCACHE when the behaviour starts (warm caches)
   InitGk,      \* <<pkg, cfg>> pairs already in GARBLE_CACHE
-  ForgetInherited  \* BOOLEAN: toolexecCmd unsets an inherited GARBLE_SHARED (fix of finding F9)
+  ForgetInherited, \* BOOLEAN: toolexecCmd unsets an inherited GARBLE_SHARED (fix of finding F9)
+  DbgTops,     \* commands run with -debugdir (main.go:436-503, debugdir.go)
+  InitDk,      \* <<pkg, cfg, kind>> debug artifacts already in GARBLE_CACHE (kind: "compile" | "asm")
+  ForceAll     \* BOOLEAN: a -debugdir command whose artifacts are incomplete adds -a (debugDirNeedsRebuild)
 
 PkgSet == {PkgSeq[i] : i \in 1..Len(PkgSeq)}
 Tools == {"compile", "asm1"} \cup RealAsm
@@ -68,7 +71,14 @@ VARIABLES
   wrotein,  \* [Kids -> set of Tops] shared dirs a child wrote sources into (history)
   linked    \* set of link children that produced their binary
 pvars == <<tpc, texit, env, dirs, created, removed, kpc, gocache, gkeys, akeys, named, wrotein, linked>>
-allvars == <<vars, pvars>>
+VARIABLES
+  dkeys,    \* set of <<pkg, cfg, kind>>: -debugdir artifacts in GARBLE_CACHE (saveDebugArtifactsForPkg)
+  forcea,   \* [Tops -> BOOLEAN] the command passes -a to the go command (every package is rebuilt)
+  dbg,      \* [Tops -> "none" | "claimed" | "checked"]: the -debugdir target was claimed / the artifact check was made
+  restored  \* [Tops -> set of <<pkg, kind>>] what restoreDebugDirFromCache wrote into the -debugdir target
+dvars == <<dkeys, forcea, dbg, restored>>
+DUnch == UNCHANGED dvars
+allvars == <<vars, pvars, dvars>>
 
 Key(t, p) == <<p, CfgOf[t][p]>>
 KidsOf(t) == {k \in Kids : k[1] = t}
@@ -76,6 +86,7 @@ Live(k) == kpc[k] \in {"started", "computing", "loaded", "wrote", "running"}
 Settled(k) == kpc[k] \in {"none", "done", "failed", "killed"}
 LinksOf(t) == {lp \in Procs : LinkTop[lp] = t}
 LinkIdle(t) == \A lp \in LinksOf(t) : pc[lp] \in {"idle", "done"}
+NeedsOf(t) == UNION {LinkNeeds[lp] : lp \in LinksOf(t)}
 
 PInit == /\ tpc = TLCEval([t \in Tops |-> "idle"])
          /\ texit = TLCEval([t \in Tops |-> "running"])
@@ -88,9 +99,14 @@ PInit == /\ tpc = TLCEval([t \in Tops |-> "idle"])
          /\ named = {}
          /\ wrotein = TLCEval([k \in Kids |-> {}])
          /\ linked = {}
+         /\ dkeys = InitDk
+         /\ forcea = TLCEval([t \in Tops |-> FALSE])
+         /\ dbg = TLCEval([t \in Tops |-> "none"])
+         /\ restored = TLCEval([t \in Tops |-> {}])
 FullInit == Init /\ PInit
 
-LinkerUnchanged == UNCHANGED vars
+LinkerUnchanged == UNCHANGED vars /\ DUnch
+LinkerOnlyUnchanged == UNCHANGED vars
 
 (* ------------------------------------------------------------------ top-level process *)
 CmdStart(t) ==
@@ -118,6 +134,7 @@ SharedCreate(t) ==
 
 GoStart(t) ==
   /\ tpc[t] = "shared"
+  /\ (t \in DbgTops => dbg[t] = "checked")
   /\ tpc' = [tpc EXCEPT ![t] = "going"]
   /\ UNCHANGED <<texit, env, dirs, created, removed, kpc, gocache, gkeys, akeys, named, wrotein, linked>> /\ LinkerUnchanged
 
@@ -128,19 +145,62 @@ GoDone(t) ==
   /\ \A k \in KidsOf(t) : Settled(k)
   /\ LinkIdle(t)
   /\ \/ ~AnyFailed(t) /\ LinksOf(t) \subseteq linked /\ texit' = texit
+        /\ (forcea[t] => \A p \in NeedsOf(t) : kpc[<<t, p, "compile">>] = "done")      \* -a: nothing is taken from GOCACHE
      \/ AnyFailed(t) /\ texit' = [texit EXCEPT ![t] = "error"]
      \/ MayFail /\ texit' = [texit EXCEPT ![t] = "error"]     \* the go command fails by itself (go vet, a failing test, ...)
   /\ tpc' = [tpc EXCEPT ![t] = "godone"]
   /\ UNCHANGED <<env, dirs, created, removed, kpc, gocache, gkeys, akeys, named, wrotein, linked>> /\ LinkerUnchanged
 
-(* the deferred os.RemoveAll(os.Getenv("GARBLE_SHARED")) *)
+(* the deferred os.RemoveAll(os.Getenv("GARBLE_SHARED")); a successful -debugdir command restores first *)
 Cleanup(t) ==
-  /\ tpc[t] = "godone"
+  /\ \/ tpc[t] = "godone" /\ ~(t \in DbgTops /\ texit[t] = "running")
+     \/ tpc[t] = "restored"
   /\ dirs' = dirs \ {env[t]}
   /\ removed' = [removed EXCEPT ![t] = IF env[t] \in dirs THEN @ \cup {env[t]} ELSE @]
   /\ texit' = [texit EXCEPT ![t] = IF @ = "running" THEN "ok" ELSE @]
   /\ tpc' = [tpc EXCEPT ![t] = "cleaned"]
   /\ UNCHANGED <<env, created, kpc, gocache, gkeys, akeys, named, wrotein, linked>> /\ LinkerUnchanged
+
+(* ------------------------------------------------------------------ -debugdir (main.go:436-503, debugdir.go) *)
+(* what the command's program consists of: the packages its link children need *)
+DKey(t, p, kind) == <<p, CfgOf[t][p], kind>>
+(* the artifacts a complete -debugdir tree needs: the Go files of every package, the assembly files of assembly packages *)
+DWanted(t) == {<<p, "compile">> : p \in NeedsOf(t)} \cup {<<p, "asm">> : p \in NeedsOf(t) \cap AsmPkgs}
+DAllCached(t) == \A w \in DWanted(t) : DKey(t, w[1], w[2]) \in dkeys
+(* the target directory is absent, empty or carries the marker: it is emptied and claimed (a foreign one is *)
+(* rejected: EarlyFail / Lifecycle.tla)                                                                     *)
+DebugClaim(t) ==
+  /\ t \in DbgTops /\ tpc[t] = "shared" /\ dbg[t] = "none"
+  /\ dbg' = [dbg EXCEPT ![t] = "claimed"]
+  /\ restored' = [restored EXCEPT ![t] = {}]
+  /\ UNCHANGED <<dkeys, forcea>> /\ UNCHANGED pvars /\ LinkerOnlyUnchanged
+(* debugDirNeedsRebuild: unless every listed package has its artifacts, force one full rebuild with -a *)
+(* (the listing also holds packages that are not part of this build, so -a may be added needlessly)     *)
+DebugCheck(t, needs) ==
+  /\ t \in DbgTops /\ tpc[t] = "shared" /\ dbg[t] = "claimed"
+  /\ (~needs => DAllCached(t))
+  /\ dbg' = [dbg EXCEPT ![t] = "checked"]
+  /\ forcea' = [forcea EXCEPT ![t] = needs /\ ForceAll]
+  /\ UNCHANGED <<dkeys, restored>> /\ UNCHANGED pvars /\ LinkerOnlyUnchanged
+(* saveDebugArtifactsForPkg: the compile child, and the first assembler run (which rewrites all .s files), store *)
+(* the package's original and garbled files after writing them and before running the tool                        *)
+DKind(k) == IF k[3] = "compile" THEN "compile" ELSE "asm"
+DebugPut(k) ==
+  /\ k[1] \in DbgTops /\ k[3] \in {"compile", "asm1"} /\ kpc[k] \in {"loaded", "wrote"}
+  /\ dkeys' = dkeys \cup {DKey(k[1], k[2], DKind(k))}
+  /\ UNCHANGED <<forcea, dbg, restored>> /\ UNCHANGED pvars /\ LinkerOnlyUnchanged
+DebugStored(k) == (k[1] \in DbgTops /\ k[3] \in {"compile", "asm1"} /\ k[2] \in ObfPkgs) => DKey(k[1], k[2], DKind(k)) \in dkeys
+(* restoreDebugDirFromCache after a successful go command: every artifact found is written into the target *)
+DebugRestore(t, p, kind) ==
+  /\ t \in DbgTops /\ tpc[t] = "godone" /\ texit[t] = "running"
+  /\ DKey(t, p, kind) \in dkeys
+  /\ restored' = [restored EXCEPT ![t] = @ \cup {<<p, kind>>}]
+  /\ UNCHANGED <<dkeys, forcea, dbg>> /\ UNCHANGED pvars /\ LinkerOnlyUnchanged
+DebugRestoreEnd(t) ==
+  /\ t \in DbgTops /\ tpc[t] = "godone" /\ texit[t] = "running"
+  /\ \A w \in DWanted(t) : DKey(t, w[1], w[2]) \in dkeys => w \in restored[t]
+  /\ tpc' = [tpc EXCEPT ![t] = "restored"]
+  /\ UNCHANGED <<texit, env, dirs, created, removed, kpc, gocache, gkeys, akeys, named, wrotein, linked>> /\ LinkerUnchanged
 
 (* ------------------------------------------------------------------ cmd/go's scheduling (environment) *)
 Have(t, p) == Key(t, p) \in gocache
@@ -215,7 +275,7 @@ WriteSources(k) ==
 ToolRun(k) ==
   /\ kpc[k] \in {"wrote", "loaded"}
   /\ (k[3] = "compile" /\ k[2] \in NamedAsmPkgs => k \in named)
-
+  /\ DebugStored(k)
   /\ kpc' = [kpc EXCEPT ![k] = "running"]
   /\ UNCHANGED <<tpc, texit, env, dirs, created, removed, gocache, gkeys, akeys, named, wrotein, linked>> /\ LinkerUnchanged
 
@@ -235,7 +295,7 @@ ToolFail(k) ==
 (* ------------------------------------------------------------------ the link child: Linker.tla steps *)
 Top(lp) == LinkTop[lp]
 LinkReady(lp) == \A p \in LinkNeeds[lp] : Have(Top(lp), p)
-PUnch == UNCHANGED pvars
+PUnch == UNCHANGED pvars /\ DUnch
 LinkStart(lp) == /\ tpc[Top(lp)] = "going" /\ LinkReady(lp) /\ lp \notin linked
                  /\ Start(lp) /\ PUnch
 LinkStep(lp) == /\ tpc[Top(lp)] = "going"
@@ -243,7 +303,7 @@ LinkStep(lp) == /\ tpc[Top(lp)] = "going"
                 /\ PUnch
 LinkUnlock(lp) == /\ tpc[Top(lp)] = "going" /\ Unlock(lp)
                   /\ linked' = linked \cup {lp}
-                  /\ UNCHANGED <<tpc, texit, env, dirs, created, removed, kpc, gocache, gkeys, akeys, named, wrotein>>
+                  /\ UNCHANGED <<tpc, texit, env, dirs, created, removed, kpc, gocache, gkeys, akeys, named, wrotein>> /\ DUnch
 (* the linker fails, or PatchLinker returns an error: the lock is released, no binary *)
 LinkFail(lp) == /\ MayFail /\ tpc[Top(lp)] = "going" /\ lock = lp /\ pc[lp] \in {"patch", "build", "ran"}
                 /\ lock' = "none" /\ pc' = [pc EXCEPT ![lp] = "done"]
@@ -262,11 +322,12 @@ PKill(t) ==
   /\ lock' = IF lock \in LinksOf(t) THEN "none" ELSE lock
   /\ pc' = MapOver(pc, {lp \in LinksOf(t) : pc[lp] # "idle"}, "done")
   /\ UNCHANGED <<stamp, bin, tmp, used, damages>>
-  /\ UNCHANGED <<texit, env, dirs, created, removed, gocache, gkeys, akeys, named, wrotein, linked>>
+  /\ UNCHANGED <<texit, env, dirs, created, removed, gocache, gkeys, akeys, named, wrotein, linked>> /\ DUnch
 
-PStep(t) == CmdStart(t) \/ EarlyFail(t) \/ SharedCreate(t) \/ GoStart(t) \/ GoDone(t) \/ Cleanup(t)
+PStep(t) == \/ CmdStart(t) \/ EarlyFail(t) \/ SharedCreate(t) \/ GoStart(t) \/ GoDone(t) \/ Cleanup(t)
+            \/ DebugClaim(t) \/ (\E b \in BOOLEAN : DebugCheck(t, b)) \/ (\E p \in PkgSet, kd \in {"compile", "asm"} : DebugRestore(t, p, kd)) \/ DebugRestoreEnd(t)
 LStep(lp) == LinkStart(lp) \/ LinkStep(lp) \/ LinkUnlock(lp) \/ LinkFail(lp)
-KStep(k) == KidStart(k) \/ CacheGet(k) \/ (\E q \in PkgSet : CachePut(k, q)) \/ AsmLoaded(k) \/ AsmNamesPut(k) \/ WriteSources(k) \/ ToolRun(k) \/ ToolDone(k) \/ ToolFail(k)
+KStep(k) == KidStart(k) \/ CacheGet(k) \/ (\E q \in PkgSet : CachePut(k, q)) \/ AsmLoaded(k) \/ AsmNamesPut(k) \/ DebugPut(k) \/ WriteSources(k) \/ ToolRun(k) \/ ToolDone(k) \/ ToolFail(k)
 PNext == (\E t \in Tops : PStep(t) \/ PKill(t)) \/ (\E k \in Kids : KStep(k)) \/ (\E lp \in Procs : LStep(lp))
 PFair == (\A t \in Tops : WF_allvars(PStep(t))) /\ (\A k \in Kids : WF_allvars(KStep(k))) /\ (\A lp \in Procs : WF_allvars(LStep(lp)))
 PSpec == FullInit /\ [][PNext]_allvars /\ PFair
@@ -279,7 +340,7 @@ PTmpClean == \A t \in Tops : tpc[t] = "cleaned" => DirName[t] \notin dirs
 PSharedAlive == \A k \in Kids : Live(k) => DirName[k[1]] \in dirs
 PWriteOwn == \A k \in Kids : wrotein[k] \subseteq created[k[1]]
 (* no child outlives the go command that started it *)
-PNoOrphan == \A t \in Tops : tpc[t] \in {"godone", "cleaned", "killed"} => (\A k \in KidsOf(t) : Settled(k)) /\ LinkIdle(t)
+PNoOrphan == \A t \in Tops : tpc[t] \in {"godone", "restored", "cleaned", "killed"} => (\A k \in KidsOf(t) : Settled(k)) /\ LinkIdle(t)
 (* cmd/go's order as garble relies on it: imports are compiled first, the link comes last *)
 PDepsFirst == \A k \in Kids : Live(k) => DepsReady(k[1], k[2])
 PLinkLast == \A lp \in Procs : pc[lp] \notin {"idle", "done"} => LinkReady(lp)
@@ -293,10 +354,18 @@ POkMeansLinked == \A t \in Tops : (tpc[t] = "cleaned" /\ texit[t] = "ok") => Lin
 (* a link child uses the patched linker only while its own parent's build is alive *)
 PLinkUnderGo == \A lp \in Procs : pc[lp] \notin {"idle", "done"} => tpc[Top(lp)] = "going"
 (* C17/C18 on the linker cache: from Linker.tla *)
-PTypeOK == /\ tpc \in [Tops -> {"idle", "started", "shared", "going", "godone", "cleaned", "killed"}]
+(* C19: a -debugdir command that succeeds leaves the complete source and garbled trees of its build in the target, *)
+(* whether the objects came from the caches or were rebuilt                                                        *)
+PDebugComplete == \A t \in DbgTops : (tpc[t] = "cleaned" /\ texit[t] = "ok") => DWanted(t) \subseteq restored[t]
+(* what is restored was stored under the key of this command's own (configuration, source) *)
+PDebugOwnKey == \A t \in DbgTops : \A w \in restored[t] : DKey(t, w[1], w[2]) \in dkeys
+(* -a really rebuilds: a -debugdir command that forced a rebuild and succeeded compiled every package itself *)
+PForcedRebuilt == \A t \in DbgTops : (forcea[t] /\ tpc[t] \in {"restored", "cleaned"} /\ texit[t] # "error")
+                                        => \A p \in NeedsOf(t) : kpc[<<t, p, "compile">>] = "done"
+PTypeOK == /\ tpc \in [Tops -> {"idle", "started", "shared", "going", "godone", "restored", "cleaned", "killed"}]
            /\ dirs \subseteq {DirName[t] : t \in Tops}
 (* liveness: without kills every started command finishes, successfully unless a tool failed *)
 PAllFinish == <>(\A t \in Tops : tpc[t] \in {"cleaned", "killed"})
 
-PView == <<lock, stamp, bin, tmp, pc, used, tpc, texit, env, dirs, created, removed, kpc, gocache, gkeys, akeys, named, linked>>
+PView == <<lock, stamp, bin, tmp, pc, used, tpc, texit, env, dirs, created, removed, kpc, gocache, gkeys, akeys, named, linked, dkeys, forcea, dbg, restored>>
 =============================================================================
